@@ -68,6 +68,8 @@ pub struct Sub {
     pub nfrag: u32,
     pub pid: Option<u32>,
     pub tx: Vec<u8>,
+    /// virtual time (ms) each fragment was last seen on the wire
+    pub last_tx_ms: Vec<u32>,
     pub acked: Vec<u64>,
     pub n_acked: u32,
     pub n_first_tx: u32,
@@ -132,6 +134,8 @@ pub struct DirModel {
     pub n_passed: u64,
 
     pub honest_peer: bool,
+    /// virtual time in ms, kept current by the simulator (only used to date transmissions)
+    pub clock_ms: u32,
     reported_phantom: bool,
     pub violations: Vec<Violation>,
     pub c: Counters,
@@ -181,6 +185,7 @@ impl DirModel {
             n_acked_frags: 0,
             n_passed: 0,
             honest_peer: true,
+            clock_ms: 0,
             reported_phantom: false,
             violations: Vec::new(),
             c: Counters::default(),
@@ -196,6 +201,32 @@ impl DirModel {
 
     pub fn frame_nonce(&self, id: u32) -> Option<bool> {
         self.frames.get(&id).map(|r| r.nonce)
+    }
+
+    /// C12 "retransmitted until acknowledged", judged when the connection has made no progress for
+    /// `window_ms` on a fair network: a fragment of a Persistent / Reliable packet that has been given
+    /// its packet id (some fragment of it was on the wire), whose acknowledgement has not been handed
+    /// to the sender and which the receiver has not reported moving past, must have been on the wire
+    /// within that window. Returns a description of the first fragment for which that is not so.
+    pub fn unacked_fragment_not_retransmitted(&self, now_ms: u32, window_ms: u32) -> Option<String> {
+        for (idx, s) in self.subs.iter().enumerate() {
+            if !s.mode.resends() || s.pid.is_none() || s.passed || s.discarded || s.n_acked >= s.nfrag || s.tx.is_empty() {
+                continue;
+            }
+            // only once every fragment that WAS sent is either acknowledged or silent too: a packet
+            // still being cut across flushes has fragments that legitimately wait for their turn
+            for f in 0..s.nfrag {
+                if bit_get(&s.acked, f) {
+                    continue;
+                }
+                let last = s.last_tx_ms[f as usize];
+                let never = s.tx[f as usize] == 0;
+                if never || now_ms.saturating_sub(last) > window_ms {
+                    return Some(format!("fragment {} of {} submission #{} (packet id {:?}, {} fragments, {} acknowledged) is unacknowledged and not passed, but {} (now t={} ms, no progress for {} ms on a fair network)", f, s.mode.name(), idx, s.pid, s.nfrag, s.n_acked, if never { "was never transmitted although other fragments of the packet were".to_string() } else { format!("was last transmitted at t={} ms", last) }, now_ms, window_ms));
+                }
+            }
+        }
+        None
     }
 
     pub fn progress_marker(&self) -> u64 {
@@ -219,6 +250,7 @@ impl DirModel {
             nfrag,
             pid: None,
             tx: Vec::new(),
+            last_tx_ms: Vec::new(),
             acked: Vec::new(),
             n_acked: 0,
             n_first_tx: 0,
@@ -357,6 +389,7 @@ impl DirModel {
             RFrame::Data { sequence_id, nonce, datagrams } => (*sequence_id, *nonce, datagrams),
             _ => return,
         };
+        let clock_ms = self.clock_ms;
         self.c.inc("wire_data_frames");
         if let Some(exp) = self.expect_frame_id {
             if frame_id != exp {
@@ -379,6 +412,7 @@ impl DirModel {
                             let s = &mut self.subs[idx];
                             s.pid = Some(pid);
                             s.tx = vec![0u8; nf];
+                            s.last_tx_ms = vec![0u32; nf];
                             s.acked = vec![0u64; (nf + 63) / 64];
                         }
                         self.unmapped_sum -= len;
@@ -482,6 +516,7 @@ impl DirModel {
             }
             let s = &mut self.subs[idx];
             s.tx[f as usize] = s.tx[f as usize].saturating_add(1);
+            s.last_tx_ms[f as usize] = clock_ms;
             rec.frags.push((idx, f));
         }
         self.frames.insert(frame_id, rec);
